@@ -295,7 +295,13 @@ def gen_requests(args, out_path):
         raise RuntimeError(f"tvdriver gen {args} failed: {p.stderr[-500:]}")
 
 
-def serve(binary, req_path, out_path, timeout=6 * 3600, extra_args=(), workers=None):
+# budget for answering one request stream (set per tier by checks.Check); a process that has not answered by then
+# is stopped and its unanswered requests are marked `timeout` — a search that never returns must end the check,
+# not hang it
+STREAM_TIMEOUT = 6 * 3600
+
+
+def serve(binary, req_path, out_path, timeout=None, extra_args=(), workers=None):
     """Answers every request line of `req_path` with `binary serve`, one answer line per request, into
     `out_path`. Request lines are independent of each other (every line carries its own state), so a long
     stream is dealt round-robin to several processes and the answers are put back in request order. A process
@@ -306,6 +312,8 @@ def serve(binary, req_path, out_path, timeout=6 * 3600, extra_args=(), workers=N
     while lines and lines[-1] == "":
         lines.pop()
     n = len(lines)
+    if timeout is None:
+        timeout = STREAM_TIMEOUT
     if workers is None:
         workers = 1 if n < 4 else min(14, max(1, n // 2))
     if workers <= 1:
@@ -315,7 +323,14 @@ def serve(binary, req_path, out_path, timeout=6 * 3600, extra_args=(), workers=N
                                    stderr=subprocess.PIPE, text=True, timeout=timeout, env=ENV)
                 return p.returncode, p.stderr
             except subprocess.TimeoutExpired:
-                return 124, "timeout"
+                pass
+        got = read_lines(out_path)
+        while got and got[-1] == "":
+            got.pop()
+        got = got[:-1] if got else got          # the line being written when the process was stopped
+        with open(out_path, "w") as f:
+            f.write("\n".join(got + ["timeout"] * (n - len(got))) + "\n")
+        return 124, "timeout"
     parts = [[] for _ in range(workers)]
     for k, l in enumerate(lines):
         parts[k % workers].append(l)
@@ -331,13 +346,15 @@ def serve(binary, req_path, out_path, timeout=6 * 3600, extra_args=(), workers=N
     rc, errs = 0, []
     deadline = time.time() + timeout
     answers = []
-    for (p, fin, fout, op) in procs:
+    timed_out = set()
+    for w, (p, fin, fout, op) in enumerate(procs):
         try:
             _, err = p.communicate(timeout=max(1, deadline - time.time()))
         except subprocess.TimeoutExpired:
             p.kill()
             _, err = p.communicate()
             err = (err or "") + " timeout"
+            timed_out.add(w)
         fin.close(); fout.close()
         if p.returncode != 0:
             rc = p.returncode
@@ -355,7 +372,7 @@ def serve(binary, req_path, out_path, timeout=6 * 3600, extra_args=(), workers=N
         if j < len(a) and (j < len(a) - 1 or procs[w][0].returncode == 0):
             out.append(a[j])
         else:
-            out.append("crash")
+            out.append("timeout" if w in timed_out else "crash")
     with open(out_path, "w") as f:
         f.write("\n".join(out) + ("\n" if out else ""))
     for w in range(workers):
